@@ -539,6 +539,59 @@ fn cmd_merge(prop: &str, tier: &str, out: &str, parts: &[String]) -> i32 {
     0
 }
 
+fn cmd_fuzz_seeds(target: &str, prop: &'static str, dir: &str, n: usize) -> i32 {
+    use proptest::prelude::RngCore;
+    use proptest::test_runner::{RngAlgorithm, TestRng};
+    let (check, _k) = fgverif::fuzzing::check_for(target, prop);
+    let lens = check.tape_lens();
+    let mut sb = [0u8; 32];
+    sb[..8].copy_from_slice(&seed().to_le_bytes());
+    let mut rng = TestRng::from_seed(RngAlgorithm::ChaCha, &sb);
+    let _ = std::fs::create_dir_all(dir);
+    // the empty input plus n random valid tape sets of growing length
+    let _ = std::fs::write(format!("{dir}/seed-empty"), []);
+    for i in 0..n {
+        let tapes: Vec<Vec<u16>> = lens
+            .iter()
+            .map(|l| {
+                let len = (rng.next_u64() as usize % (l + 1)) * (i + 1) / n.max(1);
+                (0..len).map(|_| rng.next_u32() as u16).collect()
+            })
+            .collect();
+        let bytes = fgverif::tape::tapes_to_bytes(&tapes);
+        let _ = std::fs::write(format!("{dir}/seed-{i:03}"), bytes);
+    }
+    0
+}
+
+fn cmd_fuzz_replay(target: &str, prop: &'static str, artifact: &str) -> i32 {
+    let Ok(data) = std::fs::read(artifact) else {
+        eprintln!("cannot read {artifact}");
+        return 2;
+    };
+    let known = Findings::load(&verif_dir());
+    let rep = fgverif::fuzzing::run_bytes(target, prop, &data, true);
+    let dec = rep.decoded.clone().unwrap_or(Value::Null);
+    for v in rep.violations.iter().filter(|v| v.prop == prop) {
+        if known.classify(prop, v, &dec).is_some() {
+            continue;
+        }
+        let (_, k) = fgverif::fuzzing::check_for(target, prop);
+        let f = Failure {
+            check: format!("libfuzzer:{target}:{prop}"),
+            violation: v.clone(),
+            tapes: fgverif::tape::tapes_from_bytes(&data, k),
+            decoded: dec.clone(),
+        };
+        let path = write_replay(prop, &f);
+        println!("violation: {} {}: {}", v.prop, v.kind, v.msg.chars().take(600).collect::<String>());
+        println!("VIOLATION property={prop} replay={path}");
+        return 1;
+    }
+    println!("artifact {artifact}: no violation of {prop} in the {} build", build_name());
+    0
+}
+
 fn main() {
     // panics of the code under test are caught and reported by the engines
     std::panic::set_hook(Box::new(|_| {}));
@@ -548,6 +601,8 @@ fn main() {
         Some("run") if args.len() >= 5 => cmd_run(leak(&args[2]), &args[3], &args[4]),
         Some("replay") if args.len() >= 4 => cmd_replay(&args[2], &args[3]),
         Some("merge") if args.len() >= 6 => cmd_merge(&args[2], &args[3], &args[4], &args[5..]),
+        Some("fuzz-seeds") if args.len() >= 6 => cmd_fuzz_seeds(&args[2], leak(&args[3]), &args[4], args[5].parse().unwrap_or(16)),
+        Some("fuzz-replay") if args.len() >= 5 => cmd_fuzz_replay(&args[2], leak(&args[3]), &args[4]),
         _ => {
             eprintln!("usage: fgcheck run <Cxx> <quick|thorough> <part.json> | replay <Cxx> <file> | merge <Cxx> <tier> <out> <parts..>");
             2
